@@ -265,8 +265,13 @@ class RxMixin:
         if ri is None:
             return None
         rx = self.rxs[ri]
+        if op.get('touch'):
+            rx.live.meta              # reading creates the (possibly empty) dictionary before the copy is taken
         c = rx.live.copy()
         new = Rx(c, {role: [m.copy() for m in ms] for role, ms in rx.models.items()}, rx.name, rx.meta)
+        if op.get('then_set'):
+            c.meta['copied'] = 'yes'  # the copy's metadata is its own from the first moment
+            new.meta['copied'] = 'yes'
         if len(self.rxs) >= MAX_RX:
             # replace the other slot (or the source itself when there is only one slot): the copy lives on
             self.rxs[(ri + 1) % len(self.rxs) if len(self.rxs) > 1 else ri] = new
@@ -350,6 +355,9 @@ def gen_rx_op(sim, rng, frng, cfg, gen_inner_edit):
         op['disjoint'] = rng.random() < 0.7
         if rng.random() < 0.3:
             op['name'] = 'rx%d' % rng.randrange(10)
+    elif kind == 'rx_copy':
+        op['touch'] = rng.random() < 0.5
+        op['then_set'] = rng.random() < 0.5
     elif kind == 'rx_norm':
         op['name'] = rng.randrange(len(RX_NORMALISERS))
         op['log'] = rng.random() < 0.3
